@@ -1,4 +1,4 @@
-"""C17 -- remaining class-level refactorings (narrow necessary conditions R17.1-R17.12)."""
+"""C17 -- remaining class-level refactorings (narrow necessary conditions R17.1-R17.13)."""
 from __future__ import annotations
 
 import ast
@@ -245,8 +245,13 @@ def _augmented_write_grouping_rule(ctx, res) -> None:
                 n_prefix += 1
                 if x.left.value.rstrip().endswith("("):
                     prefix_opens = True
-    if n_prefix == 0:
-        raise AnalysisError("anchor=encapsulate_field: the text emitted for an augmented write (`\" %s \" % assignment_type[:-1]`) not found")
+            # the same text as an f-string: `f"{setter}({primary}{getter}() {operator} "`
+            if isinstance(x, ast.JoinedStr) and len([v for v in x.values if isinstance(v, ast.FormattedValue)]) >= 2 and x.values and isinstance(x.values[-1], ast.Constant) \
+                    and any(isinstance(v, ast.Constant) and "(" in str(v.value) for v in x.values):
+                n_prefix += 1
+                if str(x.values[-1].value).rstrip().endswith("(") and len([v for v in x.values if isinstance(v, ast.Constant) and "(" in str(v.value)]) >= 2:
+                    prefix_opens = True
+    res.analysed["R17.11:prefix-forms"] = n_prefix
     # the augmented flag: attributes / names assigned from a comparison with "="
     flags = set()
     for m in cls.methods.values():
@@ -269,6 +274,25 @@ def _augmented_write_grouping_rule(ctx, res) -> None:
                                    (isinstance(y, ast.Compare) and any(isinstance(c, ast.Constant) and c.value == "=" for c in y.comparators)) for y in ast.walk(t))
                        for t, pol in gs):
                     wrapped, where = True, f"{m.unit.rel}:{st.lineno}"
+    # (B') the predicate that excuses a right-hand side from the parentheses decides "already one group" from the PARSE of the
+    # text, not from its first and last character: `(fee) - (tax)` starts with ( and ends with ) and is no group
+    n_pred = 0
+    for m in cls.methods.values():
+        textual = [c for c in calls_in(m.node) if call_name(c) in ("startswith", "endswith") and c.args and isinstance(c.args[0], ast.Constant) and c.args[0].value in ("(", ")")]
+        if not textual:
+            continue
+        cfg = CFG(m.node)
+        parses = [nd.id for nd in cfg.nodes if nd.ast is not None and nd.kind in ("stmt", "test") and any(call_name(c) in ("parse", "literal_eval", "compile") for c in calls_in(nd.ast))]
+        for nd in cfg.nodes:
+            if nd.kind == "stmt" and isinstance(nd.ast, ast.Return) and isinstance(nd.ast.value, ast.Constant) and nd.ast.value.value is True:
+                gs = cfg.guards(nd.id)
+                by_text = any(pol and any(c is t or any(c is y for y in ast.walk(t)) for c in textual) for t, pol in gs)
+                unparsed = nd.id in cfg.reachable(cfg.entry.id, avoid_nodes=parses)
+                if by_text and unparsed:
+                    n_pred += 1
+                    res.fail("R17.11", f"_FindChangesForModule.{m.name}|one-group-is-decided-by-the-parse#{n_pred}", f"{m.unit.rel}:{nd.lineno}",
+                             f"{m.name} answers True for a text that starts with `(` and ends with `)` without parsing it: `(fee) - (tax)` is taken for one parenthesised group, "
+                             "is not wrapped, and `acc.balance -= (fee) - (tax)` becomes `acc.set_balance(acc.get_balance() - (fee) - (tax))` -- another value", function=m.qualname)
     ok = prefix_opens or wrapped
     res.add("R17.11", "_FindChangesForModule|augmented-write-keeps-grouping", ok, where or cls.where,
             "the right-hand side of an augmented write is parenthesised in the setter call" if ok else
